@@ -85,6 +85,7 @@ type tWorkResp struct {
 func init() {
 	constGens = append(constGens, func() {
 		fmt.Printf("Definition c_TUPVERSION := (%d)%%Z.\n", basef.TUPVERSION)
+		fmt.Printf("Definition c_TARSONEWAY := (%d)%%Z.\n", basef.TARSONEWAY)
 		fmt.Printf("Definition c_PackageLess := %d.\n", protocol.PackageLess)
 		fmt.Printf("Definition c_PackageFull := %d.\n", protocol.PackageFull)
 		fmt.Printf("Definition c_PackageError := %d.\n", protocol.PackageError)
@@ -605,12 +606,13 @@ func c05tGen(tier string, rng *rand.Rand) []tCase {
 		if k := i % 4; k > 0 {
 			v.IVersion = int16(k) // 1 = TARS, 2, 3 = TUP
 		}
+		v.CPacketType = []int8{basef.TARSNORMAL, basef.TARSONEWAY, basef.TARSNORMAL, 2, v.CPacketType}[(i/4)%5]
 		pk, err := (&protocol.TarsProtocol{}).RequestPack(v)
 		if err != nil || len(pk) > 1500 {
 			continue
 		}
 		pk = append([]byte(nil), pk...)
-		tmo(fmt.Sprintf("valid/v%d", i%4), "packed request", pk)
+		tmo(fmt.Sprintf("valid/v%d/t%d", i%4, (i/4)%5), fmt.Sprintf("packed request, packet type %d", v.CPacketType), pk)
 		nb := append([]byte(nil), pk...)
 		p := 4 + rng.Intn(len(nb)-4)
 		nb[p] = byte(rng.Intn(256))
@@ -800,7 +802,8 @@ func tJudgeDec(c *tCase) []Failure {
 }
 
 // tJudgeTmo: InvokeTimeout on a packet of at least header size never panics, and its reply is a packet that the
-// client side accepts: header = length, and it carries the request's id when the request decodes
+// client side accepts: header = length, and it carries the request's id when the request decodes; a one-way request
+// gets no reply at all (empty), a two-way request that decodes always gets one
 func tJudgeTmo(c *tCase) []Failure {
 	if c.Obs == "OPanic" {
 		if len(c.Bytes) < 4 {
@@ -813,6 +816,17 @@ func tJudgeTmo(c *tCase) []Failure {
 		return []Failure{{Sig: "harness/worker-protocol", Desc: "unexpected worker answer: " + c.Obs}}
 	}
 	var fs []Failure
+	probe := new(requestf.RequestPacket)
+	decodes := probe.ReadFrom(codec.NewReader(c.Bytes[4:])) == nil
+	if len(reply) == 0 { // no reply: right for a one-way request (and possible when the request does not decode)
+		if decodes && probe.CPacketType != basef.TARSONEWAY {
+			return []Failure{{Sig: "packet/invoke-timeout/no-reply-to-two-way", Desc: fmt.Sprintf("%s: a two-way request (packet type %d, id %d) that timed out gets no reply", c.Note, probe.CPacketType, probe.IRequestId)}}
+		}
+		return nil
+	}
+	if decodes && probe.CPacketType == basef.TARSONEWAY {
+		return []Failure{{Sig: "packet/invoke-timeout/reply-to-one-way", Desc: fmt.Sprintf("%s: a one-way request gets a %d-byte timeout reply", c.Note, len(reply))}}
+	}
 	if !tHeaderOK(reply) {
 		return []Failure{{Sig: "packet/invoke-timeout/header-length", Desc: fmt.Sprintf("%s: reply header % x over %d bytes", c.Note, trunc(reply), len(reply))}}
 	}
